@@ -111,6 +111,9 @@ def monitor(script):
     accepted_before_load = set()
     relearn = False
     accepted_at_save = {0}
+    accepted_ever = {0}
+    deep_marks = set()     # marks of headers at/below the in-memory window: known to be ineffective
+    min_depth = 10000
 
     def height(i):
         # true height in the tree of definitions; None if the ancestry is not rooted
@@ -220,6 +223,21 @@ def monitor(script):
             if w is not None and w > d.work and not under_invalid(i):
                 m.hit("C01:not-heaviest", f"accepted header {i} has cumulative work {w} > reported tip work {d.work} (tip {d.tip})")
                 break
+        # ---- C17: marked headers and what is built on them are off the best chain
+        if invalid:
+            def under_shallow(v):
+                return any(is_anc(x, v) for x in invalid if x not in deep_marks and height(x) is not None)
+            for k, v in enumerate(ids_at):
+                if v is not None and v in defs and under_invalid(v):
+                    if under_shallow(v):
+                        m.hit("C17:on-best-chain", f"header {v} (height {k}) is marked invalid or built on a marked header but is on the reported best chain")
+                    else:
+                        m.hit("C17:deep-mark-ineffective", f"header {v} (height {k}) is under a mark placed at or below the in-memory window and stays on the reported best chain")
+                    break
+            for i, c in d.ch.items():
+                if c[0] != "unknown" and c[1] and i in defs and under_shallow(i):
+                    m.hit("C17:reported-in-chain", f"CheckHeader({i}) reports in-most-work-chain for a header under an invalid mark")
+                    break
         # ---- C09: lookups agree with the tree
         for i in d.hh:
             th = height(i)
@@ -306,7 +324,10 @@ def monitor(script):
             apply_stream(evs)
             if v == "ok":
                 was = i in accepted
+                if i in invalid and not was:
+                    m.hit("C17:marked-accepted", f"header {i} is marked invalid but its submission was accepted")
                 accepted.add(i)
+                accepted_ever.add(i)
                 if was and not relearn and (evs or (before["work"] is not None and before != tip)):
                     m.hit("C08:resubmit-changed", f"re-submitting accepted header {i} changed the tip or emitted events {evs}")
             else:
@@ -331,11 +352,15 @@ def monitor(script):
                     pass
                 if p not in accepted and i not in accepted:
                     exp = {"unknown", "wrongchain"}
-                    if v not in exp and not (v == "badwork"):
+                    if v not in exp and v not in ("badwork", "badbits"):
                         m.hit("C08:verdict-orphan", f"submission of {i} whose parent {p} was never accepted answered `{v}`")
                 if v.startswith("err:"):
                     m.hit("C08:verdict-internal-error", f"submission of {i} answered with an internal error `{v}`, not one of the reference verdicts")
-        elif verb in ("clean", "cleand", "save"):
+        if verb in ("cleand", "loadd", "crashclean") and "d" in a:
+            min_depth = min(min_depth, int(a["d"]))
+        if verb in ("loadd", "crashsave", "crashclean") and "ld" in a:
+            min_depth = min(min_depth, int(a["ld"]))
+        if verb in ("clean", "cleand", "save"):
             if "h" in o:
                 newtip = dict(h=int(o["h"]), tip=o["tip"], work=int(o["work"]))
                 if tip["work"] is not None and newtip != tip:
@@ -366,9 +391,83 @@ def monitor(script):
                 accepted_before_load = set(accepted)
                 accepted = set(accepted_at_save)
                 relearn = True
+        elif verb in ("crashsave", "crashclean"):
+            if o.get("r", "ok") != "ok":
+                m.hit("C12:op-error", f"`{op}` failed: {oraw[:60]}")
+            if "h" in o:
+                newtip = dict(h=int(o["h"]), tip=o["tip"], work=int(o["work"]))
+                if tip["work"] is not None and newtip != tip:
+                    m.hit("C10:tip-changed" if verb == "crashclean" else "C11:tip-changed", f"`{op}` changed the reported tip {tip} -> {newtip}")
+                tip = newtip
+            base = saved_tip["work"] if saved_tip is not None else None
+            for e in parse_list(o.get("p", "[]")):
+                f = e.split(":")
+                k = f[0]
+                if f[1] != "ok":
+                    m.hit("C12:load-fails", f"`{op}`: loading the storage image after {k} of {len(parse_list(o.get('ev','[]')))} writes {o.get('ev')} -> {f[1]}")
+                    continue
+                hh, tt, ww, linked = int(f[2]), f[3], int(f[4]), f[5]
+                if linked != "1":
+                    m.hit("C12:unlinked", f"`{op}`: after {k} writes the loaded best chain (tip {tt} height {hh}) is not linked from genesis")
+                if base is not None and ww < base:
+                    m.hit("C12:work-regressed", f"`{op}`: after {k} writes the loaded tip work {ww} < work at the last completed Save {base}")
+                if tt != "?" and int(tt) in defs:
+                    tw = cumwork(int(tt))
+                    if tw is not None and tw != ww and not latest_mode:
+                        m.hit("C12:work-value", f"`{op}`: after {k} writes loaded tip {tt} reports work {ww}, true cumulative work {tw}")
+                    if int(tt) not in accepted_ever:
+                        m.hit("C12:unaccepted-tip", f"`{op}`: after {k} writes the loaded tip {tt} was never accepted")
+            if verb == "crashsave":
+                saved_tip = dict(tip)
+                prev_saved_is_current = True
+                accepted_at_save = set(accepted)
+        elif verb == "loc" and "loc" in o:
+            mx = int(a["max"])
+            raw = o["loc"]
+            is_set = raw.startswith("set")
+            ids = parse_list(raw[3:] if is_set else raw)
+            if len(set(ids)) != len(ids):
+                m.hit("C19:duplicate", f"`{op}` returned a hash twice: {raw}")
+            if not ids:
+                m.hit("C19:empty-after-deep-mark" if invalid else "C19:empty", f"`{op}` returned an empty locator")
+                continue
+            if chain_valid and not latest_mode:
+                cset = {str(x) for x in chain}
+                onbest = [x for x in ids if x in cset]
+                for x in ids:
+                    if x == "?" or (x not in cset and int(x) < 900000 and int(x) not in accepted_ever):
+                        m.hit("C19:foreign-entry", f"`{op}` contains {x}, which is neither on the best chain, a split fork point nor an accepted side-branch base")
+                if not is_set:
+                    hs = [chain.index(int(x)) for x in onbest]
+                    if any(hs[i] <= hs[i + 1] for i in range(len(hs) - 1)):
+                        m.hit("C19:order", f"`{op}`: best-chain entries are not strictly descending in height: {list(zip(onbest, hs))}")
+                    want = chain[-2] if len(chain) >= 2 else chain[0]
+                    if not onbest or int(onbest[0]) != want:
+                        m.hit("C19:first", f"`{op}`: first best-chain entry is {onbest[:1]}, expected the tip's parent {want}")
+                kids = {}
+                for x in accepted:
+                    if x in defs:
+                        kids[defs[x][0]] = kids.get(defs[x][0], 0) + 1
+                linear = all(v == 1 for v in kids.values()) and not invalid
+                # side-branch bases (incl. the bases of branches the best chain descends from) are
+                # extra entries, so the bound on best-chain hashes is only exact without forks
+                if linear and len(onbest) > max(mx, 1):
+                    m.hit("C19:too-many", f"`{op}` has {len(onbest)} best-chain hashes, more than max={mx}")
+        elif verb == "vloc" and "loc" in o:
+            ids = parse_list(o["loc"])
+            if len(set(ids)) != len(ids):
+                m.hit("C19:duplicate-verify", f"verify-only locator contains a hash twice: {o['loc']}")
         elif verb == "mark":
             i = int(a["id"])
             invalid.add(i)
+            saved_tip = None   # the work at the last Save may legitimately be lost to the mark
+            hi = height(i)
+            if o.get("r", "ok") != "ok" or (hi is not None and i in accepted and tip["h"] - hi >= min_depth - 1):
+                deep_marks.add(i)
+            # the marked header and everything built on it leave the accepted set
+            gone = {x for x in accepted if height(i) is not None and is_anc(i, x)}
+            accepted = accepted - gone
+            dropped = dropped | gone   # their heights may legitimately stay in the long-lived map
             if "h" in o:
                 tip = dict(h=int(o["h"]), tip=o["tip"], work=int(o["work"]))
             chain_valid = False
